@@ -138,11 +138,12 @@ let op_parse f =
   if Array.length f > 3 then op_parse_m f else
   let l = text_of_field_nn f.(1) in
   let entry = int_of_string f.(2) in
-  let r = if entry = 1 || entry = 2 || entry = 4 then parse_cstr l else parse l in
-  let tailer = if entry = 5 then " live=0 badfree=0" else "" in
+  let r = if entry = 1 || entry = 2 || entry = 4 || entry = 6 then parse_cstr l else parse l in
+  let tailer = if entry = 5 || entry = 8 then " live=0 badfree=0" else "" in
   match r with
   | POk u -> Printf.sprintf "parse 0 -1 %s prov=%s%s" (string_of_uri u) (prov_of_uri u) tailer
-  | PSyntax pos -> Printf.sprintf "parse 1 %d E%s" (int_of_nat pos) tailer
+  | PSyntax pos -> if entry >= 6 then Printf.sprintf "parse 1 nullarg E%s" tailer     (* entries 6..8: the caller passes no errorPos *)
+                   else Printf.sprintf "parse 1 %d E%s" (int_of_nat pos) tailer
 
 (* ---- conformance suite derived from the model's control automaton -------------------
    Breadth-first search over the control states reachable from CStart (one representative
@@ -250,10 +251,42 @@ let suite2 (stride : int) (phase : int) : string =
            | None -> ())
         | Stop _ -> ()) atoms) states
   done;
-  let chars = List.init 128 (fun i -> i) @ [128; 200; 255] in
+  (* stride 0: every state outside the IPv6 scanner x every class representative x every class representative, all of them
+     (the rule functions of the C parser other than uriParseIPv6address2 are few: their pairs of consecutive cases fit a quick run) *)
+  let outside_v6 c = match c with CV6 _ | CV6Colon _ | CV6CC _ -> false | _ -> true in
+  let three = if stride < 0 then - stride else 0 in
+  let states = if stride <= 0 then List.filter outside_v6 states else states in
+  let chars = if stride = 0 then List.map int_of_n suite_chars else List.init 128 (fun i -> i) @ [128; 200; 255] in
+  let stride = if stride = 0 then 1 else stride in
+  let phase = if stride = 1 then 0 else phase in
   let buf = Buffer.create (1 lsl 20) in
   let emit l = Buffer.add_string buf (String.concat "." (List.map (Printf.sprintf "%x") l)); Buffer.add_char buf ';' in
   let n = ref 0 in
+  if three > 0 then begin
+    (* three consecutive class representatives after the access string of every state outside the IPv6 scanner: a state is then
+       also entered through every one of its predecessors, not only along its shortest access string (the C parser has several
+       functions / call sites where the model has one state); every [three]-th string, by phase *)
+    let reps = List.map int_of_n suite_chars in
+    List.iter (fun c ->
+      let acc = List.rev (Hashtbl.find tbl c) in
+      List.iter (fun r1 ->
+        match snd (ptrans c (atom_of (n_of_int r1))) with
+        | Stop _ -> ()
+        | Go c1 ->
+          List.iter (fun r2 ->
+            match snd (ptrans c1 (atom_of (n_of_int r2))) with
+            | Stop _ -> ()
+            | Go c2 ->
+              List.iter (fun r3 ->
+                incr n;
+                if !n mod three = phase then begin
+                  let s3 = acc @ [r1; r2; r3] in
+                  match snd (ptrans c2 (atom_of (n_of_int r3))) with
+                  | Go c3 -> (match Hashtbl.find_opt comp c3 with Some w -> emit (s3 @ w) | None -> emit s3)
+                  | Stop _ -> emit s3
+                end) reps) reps) reps) states;
+    Buffer.contents buf
+  end else begin
   List.iter (fun c ->
     let acc = List.rev (Hashtbl.find tbl c) in
     List.iter (fun ch ->
@@ -272,6 +305,7 @@ let suite2 (stride : int) (phase : int) : string =
              | Stop _ -> ())
           end) suite_chars) chars) states;
   Buffer.contents buf
+  end
 
 (* ---- RFC 3986 oracle: membership and first dead character (memoised derivatives) ------- *)
 let spec_uri f =
